@@ -10,7 +10,7 @@ shutil.copy(src + "/demo.py", dst + "/demo.py")
 meta = json.load(open(src + "/meta.json"))
 meta["confirmed_by_me"] = {
     "ran": ["tools/seedcheck.sh %s  (tests in the scratch worktree with the change: 145 passed; demo exit 1 with the change, exit 0 without; "
-            "git -C /repo apply patch.diff; ./check %s --tier quick; git -C /repo checkout -- .)" % (sid, sid[:3])],
+            "./check %s --tier quick run against the worktree that holds the change (PYTHONPATH), /repo untouched)" % (sid, sid[:3])],
     "detected_by_quick_check": det == "yes",
     "caught_by": how,
 }
